@@ -222,10 +222,15 @@ Definition remove_cp_and_links (x : N) : M unit :=
         end) to_del) ;;
   for_each (dedupN (to_del ++ links)) m_delete_node.
 
-(* NetworkService.disconnect_interface   network_service.py:352-371 *)
+(* NetworkService.disconnect_interface   network_service.py:352-372: only a ServicePort peer
+   (interface.get_peers(itype=ServicePort)) is removed *)
+Definition is_service_port (g : graph) (p : N) : bool :=
+  match find_nodes g p with n :: _ => ntype n =? tServicePort | [] => false end.
+
 Definition disconnect_interface (i : iface_h) : M unit :=
   peers <- ask (fun g => peer_cps g (ih_id i)) ;;
-  match peers with
+  sps <- ask (fun g => Ok (filter (is_service_port g) peers)) ;;
+  match sps with
   | [] => ret tt
   | [p] => remove_cp_and_links p
   | _ => raise ETopology
@@ -387,7 +392,7 @@ Definition op_add_component (fl : flavour) (pn : N) (name : str) (node_id : opti
       ret id
   end.
 
-(* Topology.add_facility   topology.py:236-272: node, then its service, then the port(s); the handle `facs`
+(* Topology.add_facility   topology.py:245-281: node, then its service, then the port(s); the handle `facs`
    returned by add_network_service never learns about the ports added through it, so its uniqueness check
    sees an empty list.  Derived ids (node_id + '-ns', '-int', '-int<k>') are interned by the harness and
    handed over as `d_ns`, `d_int`, `d_intk` (k-th element for index k); WHICH index is used for which
@@ -419,7 +424,7 @@ Definition op_add_facility (fl : flavour) (name : str) (node_id : option N) (d_n
   | Some l => facility_ports fl facs l with_id d_intk 0 ;;; ret facn
   end.
 
-(* Topology.add_switch   topology.py:296-327: node (type Switch), its service, then ports 'p1'..'p<nports>' with ids
+(* Topology.add_switch   topology.py:305-336: node (type Switch), its service, then ports 'p1'..'p<nports>' with ids
    node_id + '-int<i>' (i from 1); same structure as add_facility, no rollback either.  `d_intk` holds the
    interned ids for i = 1, 2, ...; `pure_port` is the verdict of the port slivers (portlabels / portcapacities
    are the same objects for every port). *)
@@ -445,6 +450,21 @@ Definition op_add_switch (fl : flavour) (name : str) (node_id : option N) (d_ns 
   switch_ports fl sws nports 1 with_id d_intk pure_port ;;;
   ret sw.
 
+(* NetworkService.peer(ns, kwargs)   network_service.py:409-424: a ServicePort on each of the two services
+   (named '<self>-<other>' and '<other>-<self>', each checked against the interface names its handle cached
+   when it was made, i.e. before the call) and an L2Path link between them - three steps, no rollback. *)
+Definition op_peer (fl : flavour) (a b : N) (pure : option exn) : M unit :=
+  an <- ask (fun g => node_name g a) ;;
+  bn <- ask (fun g => node_name g b) ;;
+  ca <- ask (fun g => service_iface_names g a) ;;
+  cb <- ask (fun g => service_iface_names g b) ;;
+  let n1 := an ++ dash ++ bn in
+  let n2 := bn ++ dash ++ an in
+  i1 <- add_interface_cached fl a ca n1 None (Some tServicePort) pure ;;
+  i2 <- add_interface_cached fl b cb n2 None (Some tServicePort) None ;;
+  _ <- new_link fl (n1 ++ suffix_link) None (Some tL2Path) (Some [mkIface i1 n1; mkIface i2 n2]) None ;;
+  ret tt.
+
 (* ---------------------------------------------------------------- one call of the history *)
 Inductive call :=
 | CAddNode (name : str) (node_id : option N) (ntype : option N) (pure : option exn)
@@ -457,7 +477,8 @@ Inductive call :=
 | CAddFacility (name : str) (node_id : option N) (d_ns d_int : N) (d_intk : list N) (nstype : N)
                (pure_ns : option exn) (ports : option (list fac_port)) (pure_single : option exn)
 | CAddSwitch (name : str) (node_id : option N) (d_ns : N) (d_intk : list N) (nstype : N)
-             (pure_ns : option exn) (nports : nat) (pure_port : option exn).
+             (pure_ns : option exn) (nports : nat) (pure_port : option exn)
+| CPeer (a b : N) (pure : option exn).
 
 Definition run_call (fl : flavour) (c : call) : M unit :=
   match c with
@@ -469,4 +490,5 @@ Definition run_call (fl : flavour) (c : call) : M unit :=
   | CAddComponent pn n i a b c0 cat p => _ <- op_add_component fl pn n i a b c0 cat p ;; ret tt
   | CAddFacility n i a b k t p ports ps => _ <- op_add_facility fl n i a b k t p ports ps ;; ret tt
   | CAddSwitch n i a k t p np pp => _ <- op_add_switch fl n i a k t p np pp ;; ret tt
+  | CPeer a b p => op_peer fl a b p
   end.
